@@ -215,19 +215,29 @@ def evaluate__mod_operator(self: XPathToken, context: ta.ContextType = None) \
         return []
     elif op2 is None:
         raise self.error('XPTY0004', '2nd operand is an empty sequence')
-    elif op2 == 0 and isinstance(op2, float):
+    elif op2 == 0 and (isinstance(op1, float) or isinstance(op2, float)):
         return math.nan
     elif isinstance(op2, float) and math.isinf(op2) and op1 != 0 and \
             not (isinstance(op1, float) and math.isinf(op1)):
-        return op1 if self.parser.version != '1.0' else math.nan
+        if self.parser.version == '1.0':
+            return math.nan
+        return op1 if isinstance(op1, float) else float(op1)
 
     try:
         if isinstance(op1, int) and isinstance(op2, int):
             result = abs(op1) % abs(op2)
             return result if op1 >= 0 else -result
+        elif isinstance(op1, float) or isinstance(op2, float):
+            # Python's % takes the sign of the divisor, xs:double mod the one of the dividend
+            result = op1 % op2  # type: ignore[operator]
+            return type(result)(math.fmod(op1, op2))
         return op1 % op2  # type: ignore[operator]
     except TypeError as err:
         raise self.error('FORG0006', err) from None
+    except ValueError:
+        return math.nan
+    except OverflowError as err:
+        raise self.error('FOAR0002', err) from None
     except (ZeroDivisionError, decimal.InvalidOperation) as err:
         if op2 == 0:
             raise self.error('FOAR0001') from None
